@@ -30,9 +30,9 @@ size_t g_sde_L;                  /* index of its first NUL */
 unsigned long long g_sde_pv[LEN + 2]; /* spec: value of the first i bytes */
 unsigned char g_sde_ok[LEN + 2];      /* spec: first i bytes are digits and fit */
 
-static char g_val[LEN + 1];
-static int g_present;
-static unsigned g_getenv_calls, g_name_ok;
+char g_val[LEN + 1];
+int g_present;
+unsigned g_getenv_calls, g_name_ok;
 
 static char *stub_getenv(const char *name)
 {
@@ -61,11 +61,11 @@ static int stub_fprintf(FILE *fp, const char *fmt, ...)
  * "C" locale table: only '0'..'9' carry _ISdigit (trusted libc contract) */
 #include <ctype.h>
 #define D(c) [128 + (c)] = (unsigned short)_ISdigit
-static const unsigned short g_ctype_tab[384] = {
+const unsigned short g_ctype_tab[384] = {
 	D('0'), D('1'), D('2'), D('3'), D('4'), D('5'), D('6'), D('7'), D('8'), D('9')
 };
 #undef D
-static const unsigned short *g_ctype_ptr = &g_ctype_tab[128];
+const unsigned short *g_ctype_ptr = &g_ctype_tab[128];
 const unsigned short **__ctype_b_loc(void)
 {
 	return &g_ctype_ptr;   /* loop-free: called inside the contracted loop */
@@ -85,6 +85,11 @@ void harness(void)
 	unsigned long long v = 0;
 	unsigned char ok = 1;
 
+	/* loop-contract instrumentation leaves non-const statics nondet:
+	 * initialise every global the run depends on explicitly */
+	g_getenv_calls = 0;
+	g_name_ok = 0;
+	g_ctype_ptr = &g_ctype_tab[128];
 	g_present = verif_nd_bool("present");
 	VERIF_ASSUME(L <= LEN);
 	verif_nd_bytes(g_val, LEN, "value");
